@@ -1378,6 +1378,10 @@ def check_C08(v, tier, seed):
                 harness = prefix + f"{vlib.HARNESS_BIN} proc-matrix --label {name} --work {tmp}/w-{name} --out {out}"
                 mount = f"mount -t proc -o {opts} proc /proc" if opts else "mount -t proc proc /proc"
                 rc, log = vlib.sh(["unshare", "-m", "-p", "-f", "sh", "-c", f"{mount} && echo MOUNT-OK && {harness}"], timeout=600)
+                if rc in (126, 127) and not os.path.exists(out):
+                    # the harness binary could not even be started in this environment (exec / dynamic loader failure)
+                    skipped.append(f"{name}: rc={rc} {log[-200:]}")
+                    continue
                 if "MOUNT-OK" in log and rc != 0 and who != "userns" or (who == "userns" and os.path.exists(out) and rc != 0):
                     # the environment was set up and the harness (the library inside it) died or hung
                     cases = parse_cases(out) if os.path.exists(out) else []
